@@ -139,6 +139,42 @@ def gen_asym(rng, ops, n, nsites, want_special=True, occ_choices=(12, 12, 12, 6,
     return sites
 
 
+FOREIGN_CIF = """data_shifted
+_cell_length_a 5.1
+_cell_length_b 6.2
+_cell_length_c 7.3
+_cell_angle_alpha 81
+_cell_angle_beta 95
+_cell_angle_gamma 102
+loop_
+_symmetry_equiv_pos_as_xyz
+x,y,z
+-x+1/4,-y,-z
+loop_
+_atom_site_label
+_atom_site_type_symbol
+_atom_site_fract_x
+_atom_site_fract_y
+_atom_site_fract_z
+C1 C 0.31 0.22 0.13
+O1 O 0.61 0.42 0.73
+"""
+
+
+def other_structures_loaded_earlier():
+    """What a process has typically done before the judged calls: other structures were read - among them a CIF whose
+    operations are not a tabulated setting (inversion centre at 1/8,0,0), a P1 POSCAR - used, and dropped."""
+    from chmpy.crystal import Crystal
+    for load in (lambda: Crystal.from_cif_string(FOREIGN_CIF),
+                 lambda: Crystal.from_vasp_string("other\n1.0\n4.0 0.0 0.0\n0.3 5.0 0.0\n0.1 0.2 6.0\nC O\n1 1\nDirect\n0.1 0.2 0.3\n0.6 0.5 0.4\n")):
+        try:
+            c = load()
+            c.unit_cell_atoms()
+            c.as_P1()
+        except Exception:          # what these return is judged elsewhere (C10); here they only are the process's past
+            pass
+
+
 def build_crystal(rec):
     """Real chmpy Crystal from an exact recipe:
     {number, choice, n, gram, u, asym:[{z,p,occ,label}], route: 'params'|'vectors', rot: optional 3x3}"""
